@@ -49,7 +49,15 @@ RunVerdict(r) ==
           ELSE IF ~m.ok THEN "specification: fixed point does not converge within the fuel"
           ELSE IF r.has_export /\ r.order_export # names THEN "-r does not list the variables in id order"
           ELSE IF r.has_table /\ ~HeaderOK(hdr, tree) THEN "header is not the free variables in variable order"
-          ELSE IF r.has_table /\ r.model /\ ~ModelTableOK(hdr, Rows(r), G, r.filter) THEN "-m: table is not one satisfying row of the formula"
+          ELSE IF r.has_table /\ r.model /\ r.retain = "Any" /\ ~ModelTableOK(hdr, Rows(r), G, r.filter) THEN "-m: table is not one satisfying row of the formula"
+          \* -m together with -c: the pipeline retains first, then extracts the model; base_rows is the table the tool
+          \* itself printed for the same run without -m (the retained diagram), which must be sound w.r.t. G, and the
+          \* model must be one satisfying row of THAT diagram
+          ELSE IF r.has_table /\ r.model /\ r.retain # "Any" /\ r.has_base /\
+                  ~(LET base == [i \in DOMAIN r.base_rows |-> <<r.base_rows[i][1], r.base_rows[i][2]>>]
+                        G2   == TableFunction(hdr, base, "Any")
+                    IN RetainTableOK(hdr, base, G, "Any", r.retain) /\ ModelTableOK(hdr, Rows(r), G2, r.filter))
+               THEN "-m with -c: table is not one satisfying row of the retained diagram"
           ELSE IF r.has_table /\ ~r.model /\ r.retain # "Any" /\ ~RetainTableOK(hdr, Rows(r), G, r.filter, r.retain)
                THEN "-c: table is not sound in the direction of the filter"
           ELSE IF r.has_table /\ ~r.model /\ r.retain = "Any" /\ ~TableOK(hdr, Rows(r), G, r.filter)
